@@ -1,5 +1,7 @@
 """C04, C05: Container contract (registry = live set, deletion complete and final; exact creation fee)."""
-RULE = ("seeded random histories on chains with committees of 1, 4 and 7 members (Container, Balance, Netmap, NNS, NeoFSID "
+RULE = ("seeded random histories on chains with committees of 1, 4 and 7 members that are all validators and on chains whose committee "
+        "(= the Alphabet) is larger than the validator set: 6/4 (quick and thorough), 4/1 and 7/4 (thorough), each such case opening with the "
+        "directed balances fee*|validators|, fee*|committee|-1, fee*|committee| for an unnamed and a named put (Container, Balance, Netmap, NNS, NeoFSID "
         "compiled from the working tree): 3 owners (one of them an Alphabet node's account) x 6 container blobs with version-field "
         "offsets {0,1,2,5,8,20,200} plus malformed blobs; put / putNamed / putMeta / delete / setEACL interleaved with netmap.setConfig of "
         "ContainerFee / ContainerAliasFee from {0,1,2,7,100,127,128,255,256,1000,2^40,-1,33 bytes,non-minimal}, balance mint/burn bringing "
